@@ -1057,3 +1057,34 @@ Proof.
     destruct (wf_dump_spec v d Hwf) as (_ & _ & Hne & _).
     destruct d as [|g d]; [congruence|]. repeat split; reflexivity.
 Qed.
+
+(* ------------------------------------------------------------------ *)
+(* 9. First                                                            *)
+(* ------------------------------------------------------------------ *)
+
+(* in the snapshot an AST denotes, exactly the goroutine of index 0 is First *)
+Theorem first_unique_snapshot : forall d i G,
+  nth_error (snapshot_of d) i = Some G -> First G = Nat.eqb i 0.
+Proof.
+  intros [|g d] i G H; [destruct i; discriminate|].
+  destruct i as [|i]; cbn [snapshot_of nth_error] in H.
+  - injection H as <-. reflexivity.
+  - apply nth_error_In in H. apply in_map_iff in H as (g' & <- & _). reflexivity.
+Qed.
+
+(* in the scanner, a header line appends a goroutine that is First iff the
+   list was empty, and leaves the others alone *)
+Theorem first_unique_try_header : forall s t s',
+  try_header s t = Some s' ->
+  exists G, goroutines s' = goroutines s ++ [G] /\
+            First G = (match goroutines s with [] => true | _ => false end).
+Proof.
+  intros s t s' H. destruct (try_header_shape s t s' H) as (G & ind & -> & _ & _ & HF).
+  exists G. split; [reflexivity|exact HF].
+Qed.
+
+(* IsPtr of every parsed scalar is a function of its value *)
+Theorem isptr_value_only : forall line a top x,
+  parse_args line = inl a -> In top (Values a) -> sub_arg x top ->
+  IsPtr x = is_ptr_value (Value x).
+Proof. exact parse_args_isptr_reachable. Qed.
